@@ -21,6 +21,9 @@ ASSUMPTIONS = [
 ]
 SPEC = {
     'quick': [('K1', 'ar', 6),
+              ('K30', 'lend', 4),
+              ('K33', 'lend', 4),
+              ('K25', 'lend', 4),
               ('K13', 'lend', 4),
               ('K1', 'lend', 4),
               ('K10', 'lend', 4),
